@@ -42,7 +42,16 @@ inductive Exc where
 
 abbrev Res (α : Type) := Except Exc α
 
-deriving instance DecidableEq for Except
+/-- (explicit and namespaced: a `deriving instance … for Except` would get the same global name in every
+module of the package that does it) -/
+instance instDecEqRes {α : Type} [DecidableEq α] : DecidableEq (Res α) := fun x y =>
+  match x, y with
+  | .ok a, .ok b =>
+    if h : a = b then isTrue (by rw [h]) else isFalse (fun h' => by injection h' with h'; exact h h')
+  | .error a, .error b =>
+    if h : a = b then isTrue (by rw [h]) else isFalse (fun h' => by injection h' with h'; exact h h')
+  | .ok _, .error _ => isFalse (fun h => by cases h)
+  | .error _, .ok _ => isFalse (fun h => by cases h)
 
 /-! ### finite maps (association lists, first match wins; `set` keeps keys unique) -/
 
